@@ -340,7 +340,9 @@ def hoist_all(repo, rel, outer):
         at_line_start = (c == "\n")
         pos += 1
     if not out:
-        raise Undecided(f"anchor lost: fn {outer} in {rel} declares no nested items")
+        # the items may have been moved to module level (then `use super::*` of the harness module
+        # still finds them); if they are gone altogether the harness does not compile -> UNDECIDED
+        return f"// ---- fn {outer} of {rel} declares no nested items on this tree ----"
     return "\n".join(out) + f"\n// ---- end of items hoisted from fn {outer} ----"
 
 
